@@ -103,12 +103,26 @@ FOCUS_W6 = {
  'C17': "u16 <-> f32 and u8 <-> f32 conversions and the typed entry point change_type_of_pixel_components_typed for multi-component pixels",
  'C18': "the I32 and F32 kernels with non-negative filters, and the Hamming / Gaussian kernel functions",
 }
-FOCUS = FOCUS_W6 if tag.startswith('w6') else FOCUS_W5 if tag.startswith('w5') else FOCUS_W4 if tag.startswith('w4') else (FOCUS_W3 if tag.startswith('w3') else FOCUS_W2)
+FOCUS_W7 = dict(FOCUS_W6)
+FOCUS_W7.update({
+ 'C02': "the AVX2 horizontal convolution kernels of the three-channel types (src/convolution/u8x3/avx2.rs, u16x3/avx2.rs: width-dependent loop exits, 5-pixel steps) and the SSE4.1 / AVX2 kernels of I32 and F32 images",
+ 'C03': "Resizer::resize_typed / resize with ResizeOptions built step by step (crop after fit_into_destination, use_alpha toggles), thread-pool / rayon-free paths of MulDiv on cropped views, and arithmetic on u32 sizes in src/resizer.rs",
+ 'C05': "the two-pass path: the intermediate image and its reuse, resizes whose first pass is vertical (Resizer chooses the order), with SIMD back-ends and destinations that are plain typed images over longer buffers",
+ 'C06': "the U8x2 and U16x2 kernels (SSE4.1 / AVX2 row tails, opaque / transparent runs), and divide_alpha of pixels whose colour exceeds alpha",
+ 'C09': "a Resizer reused across different algorithms (Nearest, SuperSampling, Convolution) and different use_alpha settings; the alpha_buffer and its capacity handling",
+ 'C10': "the 16-bit kernels (Normalizer32: coefficient normalisation, precision selection) and two-pass resizes of U16x2 / U16x4 with alpha handling on opaque uniform images",
+ 'C13': "resizes whose source is a plain typed image over a longer buffer or a cropped view of a cropped view, through Resizer::resize_typed, for 16-bit types on SIMD back-ends",
+ 'C18': "the 16-bit SIMD kernels (SSE4.1 / AVX2, horizontal and vertical) with Box / Bilinear / Gaussian filters on images of extreme values (0 and 65535)",
+})
+FOCUS = FOCUS_W7 if tag.startswith('w7') else FOCUS_W6 if tag.startswith('w6') else FOCUS_W5 if tag.startswith('w5') else FOCUS_W4 if tag.startswith('w4') else (FOCUS_W3 if tag.startswith('w3') else FOCUS_W2)
 os.makedirs('/tmp/wt', exist_ok=True)
 tmpl = open(os.path.join(os.path.dirname(os.path.abspath(__file__)), 'prompt_template.txt')).read()
+only = sys.argv[2:]
 for line in open('/verif/properties.jsonl'):
     p = json.loads(line)
     pid = p['id']
+    if only and pid not in only:
+        continue
     name = '%s-%s' % (tag, pid)
     wt, out = '/tmp/wt/' + name, '/tmp/wt/' + name + '-out'
     anchors = ', '.join(p['anchors']['files']) if isinstance(p['anchors'], dict) else str(p['anchors'])
